@@ -372,7 +372,8 @@ def gen_lean(ck, units, by, chain_ok):
 
 PROPS = (["TfelVerif.C23.PropsStress", "TfelVerif.C23.PropsN1"]
          + ["TfelVerif.C23.PropsN2%s" % g for g in N2_GROUPS] + ["TfelVerif.C23.PropsN2Chains"]
-         + ["TfelVerif.C23.PropsN3_%s__%s" % p for p in N3_BASE] + ["TfelVerif.C23.PropsN3Chains"])
+         + ["TfelVerif.C23.PropsN3_%s__%s" % p for p in N3_BASE] + ["TfelVerif.C23.PropsN3Chains"]
+         + ["TfelVerif.C23.PropsCompose%d" % n for n in (1, 2, 3)] + ["TfelVerif.C23.PropsNonVacuity"])
 
 
 def run(ck):
